@@ -154,6 +154,36 @@ def eval_delete_clean(case):
     return V, ('delete-clean', tkind, form, meta), 1
 
 
+def eval_delete_stale(case):
+    """A handle that outlived its array: the array was deleted by path and the path re-used by something else."""
+    darr = import_darr()
+    tkind, occ = case['target'], case['occupant']
+    setup_root()
+    h = make_target(tkind, meta=True)
+    (darr.delete_array if tkind == 'array' else darr.delete_raggedarray)(T)
+    if occ == 'userdir':           # a user directory that happens to contain files with Darr's file names
+        os.makedirs(T)
+        for name, txt in (('README.txt', 'my own notes\n'), ('metadata.json', '{"mine": 1}\n'), ('data.csv', '1,2\n')):
+            with open(os.path.join(T, name), 'w') as f:
+                f.write(txt)
+    elif occ == 'otherkind':
+        make_target('ragged' if tkind == 'array' else 'array', meta=True)
+    elif occ == 'nothing':
+        pass
+    before = snapshot.snap(ROOT)
+    fn = darr.delete_array if tkind == 'array' else darr.delete_raggedarray
+    w, v = outcome_of(lambda: fn(h))
+    after = snapshot.snap(ROOT)
+    V = []
+    if w == 'returns' or after != before:
+        sym = 'foreign data removed or modified' if after != before else 'did not raise'
+        V.append(viol('foreign', fn.__name__, f'stale handle, path now {occ}', sym,
+                      f'{fn.__name__}(handle of an array that was deleted by path; the path is now {occ}): '
+                      f'{"returned" if w == "returns" else repr(v)[:80]}; changes {snapshot.diff(before, after)[:5]}'))
+    rmtree(ROOT)
+    return V, ('delete-stale', tkind, occ, exc_class(v) if w == 'raises' else 'returns'), 1
+
+
 CREATORS = ['asarray', 'create_array', 'asraggedarray', 'create_raggedarray', 'Array.copy', 'RaggedArray.copy',
             'Array.archive', 'RaggedArray.archive']
 OCCUPANTS = ['nothing', 'array-meta', 'ragged', 'array-larger', 'array-smaller', 'plaindir', 'file']
@@ -187,7 +217,8 @@ def eval_create(case):
     setup_root()
     src_a = darr.asarray(os.path.join(ROOT, 'src_a.darr'), np.arange(5, dtype='<i2'), metadata={'m': 1})
     src_r = darr.asraggedarray(os.path.join(ROOT, 'src_r.darr'), [[1, 2], [3]], metadata={'m': 1})
-    target = T if 'archive' not in creator else os.path.join(ROOT, 'arch.tar.xz')
+    ctype = case.get('ctype', 'xz')
+    target = T if 'archive' not in creator else os.path.join(ROOT, f'arch.tar.{ctype}')
     planted = make_occupant(occ, target)
     before = snapshot.snap(ROOT)
     call = {
@@ -197,8 +228,8 @@ def eval_create(case):
         'create_raggedarray': lambda: darr.create_raggedarray(target, atom=(2,), overwrite=ow),
         'Array.copy': lambda: src_a.copy(target, overwrite=ow),
         'RaggedArray.copy': lambda: src_r.copy(target, overwrite=ow),
-        'Array.archive': lambda: src_a.archive(target, overwrite=ow),
-        'RaggedArray.archive': lambda: src_r.archive(target, overwrite=ow),
+        'Array.archive': lambda: src_a.archive(target, compressiontype=ctype, overwrite=ow),
+        'RaggedArray.archive': lambda: src_r.archive(target, compressiontype=ctype, overwrite=ow),
     }[creator]
     w, v = outcome_of(call)
     after = snapshot.snap(ROOT)
@@ -228,7 +259,7 @@ def eval_create(case):
 
 def evaluate(case):
     return {'delete-foreign': eval_delete_foreign, 'delete-wrongkind': eval_delete_wrongkind,
-            'delete-clean': eval_delete_clean, 'create': eval_create}[case['sub']](case)
+            'delete-clean': eval_delete_clean, 'create': eval_create, 'delete-stale': eval_delete_stale}[case['sub']](case)
 
 
 def build_cases():
@@ -244,6 +275,9 @@ def build_cases():
     cases += product({'sub': ['delete-clean'], 'target': ['array', 'ragged'], 'form': ['object', 'str', 'Path'],
                       'meta': [False, True]})
     cases += product({'sub': ['create'], 'creator': CREATORS, 'occupant': OCCUPANTS, 'overwrite': [False, True]})
+    cases += product({'sub': ['create'], 'creator': ['Array.archive', 'RaggedArray.archive'], 'occupant': OCCUPANTS,
+                      'overwrite': [False, True], 'ctype': ['gz', 'bz2']})
+    cases += product({'sub': ['delete-stale'], 'target': ['array', 'ragged'], 'occupant': ['userdir', 'otherkind', 'nothing']})
     return cases
 
 
